@@ -10,6 +10,12 @@ CHECKS = {
   text="All AddRule/RemRule/AddFact-over-rule-id/EnableRule/Clear/ProcessEvent sequences up to depth 3 (quick) / 4 (thorough) over two rule ids and 15 when-patterns chosen to reach every PatternIndex node kind, on indexed and linear state with and without a parent location; in every reached canonical state all 12 events are dispatched and the dispatched set, bindings, dispositions and SearchRules candidates are compared with a reference model. Additionally every (when, event) pair of a bounded JSON grammar is run on a fresh index and fresh locations.",
   note="Trusts core.Matches as the definition of a match (C05), explicit {when:{pattern}} rule form, the L1 rewriter. Histories behind a state-diverging violation are not expanded.",
   design="2/C01"),
+ "C05": dict(
+  engine="GEN",
+  technique="bounded-exhaustive enumeration of (pattern, datum, bindings) triples x owned map-iteration orders on the real matcher against an independent reference matcher",
+  text="Every (pattern, datum, initial bindings) triple of a bounded JSON grammar inside the documented fragment (node budgets 4/4 quick, 5/5 thorough) is run through core.Match under every iteration order of the maps the sheens matcher ranges over (order owned through the build overlay), and the result is compared as a set of binding sets with a brute-force reference matcher written from the manual; inputs are checked for mutation; every core.Map/[]string/[]int/int decoration of each pair must answer like the plain JSON form; Bindings.Bind is compared with reference substitution.",
+  note="Trusts the reference matcher (harness/lib/refmatch.go, ~200 lines, written from the manual's definition). Data strings never look like variables (C13 covers that). Bounded term size: a defect needing a 6-node pattern is missed.",
+  design="2/C05"),
  "C02": dict(
   engine="SEQ",
   technique="explicit-state model checking: exhaustive BFS over bounded operation sequences on the real Location, state-hash dedup, reference-model oracle",
@@ -53,6 +59,7 @@ def main():
         },
         "engines": [
             {"name": "INSTR", "path": "instr/", "serves_properties": sorted(CHECKS), "kind_free_text": "source-to-source rewriter producing a build overlay: virtual clock, owned map-iteration order, (level 2) cooperative scheduler hooks for sync/go/channels"},
+            {"name": "GEN", "path": "harness/lib/gen.go", "serves_properties": [k for k, v in sorted(CHECKS.items()) if "GEN" in v["engine"]], "kind_free_text": "bounded-exhaustive term enumeration (all JSON terms up to a node budget over a fixed leaf alphabet, size-ordered)"},
             {"name": "SEQ", "path": "harness/lib/seq.go", "serves_properties": [k for k, v in sorted(CHECKS.items()) if "SEQ" in v["engine"]], "kind_free_text": "explicit-state BFS over operation sequences of the real code, replay-from-fresh successors, canonical-state dedup including private implementation state, reference-model oracle"},
         ],
         "checks": checks,
